@@ -25,7 +25,7 @@ Fixpoint render (t : tstruct) : str :=
 (* ---- spec: lexer ---- *)
 Definition is_idc (c : ascii) : bool :=
   let n := nat_of_ascii c in
-  (((65 <=? n) && (n <=? 90)) || ((97 <=? n) && (n <=? 122)) || ((48 <=? n) && (n <=? 57)) || (n =? 95) || (n =? 36))%nat.
+  (((65 <=? n) && (n <=? 90)) || ((97 <=? n) && (n <=? 122)) || ((48 <=? n) && (n <=? 57)) || (n =? 95) || (n =? 36) || (128 <=? n))%nat.
 Inductive ltok := LT (t : tok) | LErr (c : ascii).
 Definition punct (c : ascii) : option (option tok) :=     (* None = illegal, Some None = white space *)
   if Ascii.eqb c " " then Some None
